@@ -229,6 +229,7 @@ func cmdCheck(args []string) int {
 	fs.BoolVar(&o.verbose, "v", false, "verbose")
 	fs.StringVar(&o.only, "only", "", "only functions whose name contains this")
 	fs.BoolVar(&o.keep, "keep", false, "keep SMT files")
+	fs.BoolVar(&o.noEvidence, "noev", false, "do not write the evidence file (runs against modified trees)")
 	fs.StringVar(&verifDir, "verif", "/verif", "verif dir")
 	fs.Parse(args)
 	if t := os.Getenv("VERIF_TIER"); t != "" && o.tier == "quick" {
